@@ -432,7 +432,7 @@ impl World {
         // equals the first.  (Checked before the model is compared with the parse: an enumeration whose order
         // changes from call to call would otherwise only show as a document the harness cannot mirror.)
         let mut unstable = false;
-        for _ in 0..2 {
+        for _ in 0..5 {
             let (again, _) = w.real.observe(w.cfg.limit);
             if let Some(d) = oracle::first_diff(&w.last, &again).or_else(|| oracle::first_diff(&again, &w.last)) {
                 initial_fails.push(Fail::new("C19", "read-unstable", format!("two observations of the freshly parsed, untouched documents differ: {}", d)));
